@@ -72,4 +72,20 @@ PROPS = {
                                   "geometry-level mutators are compiled to slice operations in Model/HeapGeom.lean (validated by the correspondence)"],
         assumptions=["each slice of an object starts in its own array (sub-slices of one caller array are not generated)"],
     ),
+    "C03": dict(
+        modules=["GeomVerif.Properties.C03"],
+        n_quick=12000, n_thorough=200000, thorough_seeds=4, min_theorems=5,
+        rule="random abstract geometries (7 types, nested collections to depth 3 mixing layouts, fixed-layout and empty collections, empty members at "
+             "every level, empty points, the canonical-NaN point, SRID in {0,1,4326,2^31,2^32-1,random}, 4% unencodable layouts) x {WKB, WKB NaN mode, "
+             "EWKB} x {XDR, NDR}. ops: Marshal + two Reads from two concatenated copies through a reader that splits the bytes (1-byte, zero-length "
+             "reads, random sizes, one read; EOF alone or with data); Write to a writer that starts failing at a chosen byte; hex variants; "
+             "database/sql Valuer/Scanner incl. a wrapper of the wrong type. Oracle: bytes equal the independent reference encoder (ISO type codes / "
+             "PostGIS flags); both reads give back the geometry (with the documented carve-outs); exactly the bytes are consumed; a fault is "
+             "reported and what was written is a prefix. non-trivial = input longer than 40 characters",
+        nontrivial=lambda op, inp: len(inp) > 40,
+        trusted_base=TB_COMMON + ["modelled: wkbcommon binary.go/wkbcommon.go, wkb.Read/Write, ewkb.Read/Write; hex and sql wrappers as compositions",
+                                  "reference encoder Spec/WkbSpec.lean written from ISO 13249-3 / OGC 06-103r4 and PostGIS ZMSgeoms.txt over nested coordinates",
+                                  "encoding/hex, bytes.Buffer, io.ReadFull, encoding/binary (Go stdlib) modelled; io.ReadFull's loop as readFullChunks"],
+        assumptions=["SRID within [0, 2^32)", "int is 64 bits (count*stride cannot overflow)"],
+    ),
 }
